@@ -1034,7 +1034,15 @@ def check(c):
     if c.tier == 'thorough' and ok:
         c.thorough_proof(['C01'])
     check_biguint(c)
+    # a broken lower layer makes the upper layers fail in bulk (and slowly, when gcd stops
+    # terminating): report the lowest broken layer and stop
+    if len([v for v in c.violations if not v[2]]) > 40:
+        c.notes.append('L1 BigUint already shows %d violations: L1 BigRat and L2 skipped' % len(c.violations))
+        return
     check_bigrat(c)
+    if len([v for v in c.violations if not v[2]]) > 40:
+        c.notes.append('L1 BigRat already shows %d violations: L2 skipped' % len(c.violations))
+        return
     check_expressions(c)
 
 
